@@ -191,14 +191,14 @@ fn main() -> miette::Result<()> {
 
             // Deal with .orig
             if let Some(orig) = air.orig() {
-                let _ = file.write(&orig.to_be_bytes());
+                file.write_all(&orig.to_be_bytes()).into_diagnostic()?;
             } else {
-                let _ = file.write(&0x3000u16.to_be_bytes());
+                file.write_all(&0x3000u16.to_be_bytes()).into_diagnostic()?;
             }
 
             // Write lines
             for word in words {
-                let _ = file.write(&word.to_be_bytes());
+                file.write_all(&word.to_be_bytes()).into_diagnostic()?;
             }
 
             message(Green, "Finished", "emit binary");
